@@ -42,6 +42,25 @@ def bijective(label: str) -> bool:
     return not any(n in label for n in NON_BIJECTIVE)
 
 
+def _unset_required(v: Any, ctx: Ctx) -> bool:
+    """a required field dropped by unset-tracking cannot come back: outside the round-trip fragment"""
+    from ..refmodel.deser import VAlts, VObj, all_fields
+
+    if isinstance(v, VAlts):
+        v = v.first
+    if isinstance(v, VObj):
+        ob = ctx.env.get(v.cls)
+        if ob is not None and ob.fields_set and v.present is not None:
+            if any(not f.optional and f.name in v.fields and f.name not in v.present for f in all_fields(ob, ctx)):
+                return True
+        return any(_unset_required(x, ctx) for x in v.fields.values())
+    if isinstance(v, (list, tuple, set, frozenset)):
+        return any(_unset_required(x, ctx) for x in v)
+    if isinstance(v, dict):
+        return any(_unset_required(x, ctx) for x in v.values())
+    return False
+
+
 def contains(d: Any, s: Any) -> Optional[str]:
     """s is d completed with defaults: every key / element of d is in s"""
     if isinstance(d, dict):
@@ -94,7 +113,7 @@ def run_type(i, label, spec, tier, st):
     if i % 101 == 0:
         st.sample({"type": short(spec), "label": label})
     has_any = any(isinstance(x, AnyT) for x in walk(spec))
-    vals = values_of(spec, ctx0)
+    vals = [v for v in values_of(spec, ctx0) if not _unset_required(v, ctx0)]
     opts = [(ap, al) for ap in (False, True) for al in ("id", "camel", "custom")] if lvl <= 1 else [(False, "id"), (True, "camel"), (False, "custom")]
     for ap, al in opts:
         ctx = case.ctx(ap, False, al)
